@@ -44,7 +44,8 @@ def build_cases(seed, quick, harness_c04):
     cases += ps.syncml_tree_docs(seed, T, 150 if quick else 1500)
     cases += ps.nested_cases(T, depths=(1, 10, 100))
     cases += ps.tolerance_cases(T)
-    base = [c for c in cases if c["kind"] == "grammar"]
+    cases += ps.embedded_cases(seed, 3 if quick else 5)
+    base = [c for c in cases if c["kind"] == "grammar"]  # (embedded cases carry no root_end: not used as bases)
     mal = ps.malformed_cases(seed, base, 2 if quick else 20, 150 if quick else 2000, T)
     cases += [c for c in mal if not c["kind"].startswith("field-")] + [c for c in mal if c["kind"].startswith("field-")][:: 40 if quick else 4]
     return T, cases
